@@ -698,6 +698,33 @@ theorem app_no_new_work_after_stop (ps : List PipeSpec) (hwf : ∀ p ∈ ps, p.w
   · have := hwf p (List.mem_of_getElem? h1) hw
     simp [h2] at this
 
+/-- the stop point within a pipeline's turn does not matter: a stop from a `pipeline_begin` listener, during
+`process()` (whatever the pipeline's own state) or from a `pipeline_end` listener of pipeline `j` all make every later
+pipeline subject to the skippable test — `appRunP` is `appRun` with `stopDuring = j` -/
+theorem appRunP_eq (at_ : StopAt) (j : Nat) (fi : Option Nat) :
+    ∀ (ps : List PipeSpec) (i : Nat) (stopping : Bool),
+      appRunP ps i stopping (some (at_, j)) fi = appRun ps i stopping (some j) fi
+  | [], _, _ => by simp [appRunP, appRun]
+  | p :: ps, i, stopping => by
+    simp only [appRunP, appRun]
+    have hflag : (stopping || some (at_, j) == some (StopAt.begin, i) || some (at_, j) == some (StopAt.during, i) ||
+        some (at_, j) == some (StopAt.end, i)) = (stopping || some j == some i) := by
+      by_cases h : j = i
+      · subst h; cases at_ <;> simp
+      · have hne : ∀ x y : StopAt, ((x, j) == (y, i)) = false :=
+          fun x y => beq_eq_false_iff_ne.mpr (fun e => h (Prod.mk.inj e).2)
+        have hji : (j == i) = false := beq_eq_false_iff_ne.mpr h
+        simp [hne, hji]
+    rw [hflag, appRunP_eq at_ j fi ps (i + 1) stopping, appRunP_eq at_ j fi ps (i + 1) (stopping || some j == some i)]
+
+/-- **A stop request is never lost between pipelines.**  Wherever in pipeline `d`'s turn `Application.stop()` is
+called — from a `pipeline_begin` listener, while `process()` runs or winds down, from a `pipeline_end` listener —
+every pipeline begun afterwards is one that is not flagged skippable. -/
+theorem app_stop_never_lost (ps : List PipeSpec) (at_ : StopAt) (d : Nat) (fi : Option Nat) (j : Nat)
+    (hj : j ∈ appRunP ps 0 false (some (at_, d)) fi) (hd : d < j) : ∃ p, ps[j]? = some p ∧ p.skippable = false := by
+  rw [appRunP_eq] at hj
+  exact app_after_stop_only_nonskippable ps d fi j hj hd
+
 theorem appRun_all (ps : List PipeSpec) (i : Nat) : appRun ps i false none none = List.range' i ps.length := by
   induction ps generalizing i with
   | nil => simp [appRun]
